@@ -14,7 +14,7 @@ E_NOTE = "Schedules: single production-loop iterations in arbitrary order incl. 
 CHECKS.update({
  "C01": dict(engine="E-engine-harness", category="exploration", design_ref="2/C01",
    technique="property-based testing: Hypothesis-generated two-sided histories (hazard-free background ops + pure conflict-gadget catalogue) executed step-by-step against the real engine; oracle = convergence predicate modulo '.conflicted' + step-bounded quiescence; trace-level ddmin",
-   text="Generated two-sided histories over four id/path provider flavours with arbitrary interleavings of single production-loop iterations; at every quiet point both roots must be equal modulo '.conflicted' names and quiet must be reached within 400 rounds. Sampling, not absence; the statement is known to be false outside the hazard envelope (open known findings are replayed and reported).",
+   text="Generated two-sided histories over four id/path provider flavours with arbitrary interleavings of single production-loop iterations; at every quiet point both roots must be equal modulo '.conflicted' names and quiet must be reached within 400 rounds. Part 'deldel': both users delete one file, then a folder above it is renamed before any sync step, with late delivery of the other side's events (exact expected tree). Sampling, not absence; the statement is known to be false outside the hazard envelope (open known findings are replayed and reported).",
    note=E_NOTE),
  "C02": dict(engine="E-engine-harness", category="exploration", design_ref="2/C02",
    technique="property-based testing: generated conflict gadgets and injected CloudCorruptError; oracle = version-survival invariant over the whole history (every unreleased user-written content present somewhere), per-gadget outcome predicates, call-log invariant for the good copy of a corrupt file",
@@ -22,7 +22,7 @@ CHECKS.update({
    note=E_NOTE),
  "C04": dict(engine="E-engine-harness", category="exploration", design_ref="2/C04",
    technique="property-based testing: Hypothesis-generated two-sided histories with per-window disjointness enforced by construction; oracle = reference merged tree (base + opsL + opsR) compared at every quiet point",
-   text="Both sides change disjoint objects concurrently; because the generator enforces disjointness per window the expected merged tree is well defined and both roots must equal it exactly (no resurrection, no duplication, no '.conflicted').",
+   text="Both sides change disjoint objects concurrently; because the generator enforces disjointness per window the expected merged tree is well defined and both roots must equal it exactly (no resurrection, no duplication, no '.conflicted'). Part 'inside': a child is moved between directories inside folder X while the other side renames X (commuting changes to different objects, exact expected tree; restricted to the flavour/direction combinations that hold on the unchanged tree, open finding KF-50).",
    note=E_NOTE),
  "C13": dict(engine="path-laws", category="exploration", design_ref="2/C13",
    technique="bounded-exhaustive enumeration of all strings over a 9-character alphabet (5 path conventions) plus Hypothesis long unicode paths, against a table of algebraic laws (idempotence, round-trip, metamorphic prefix/replace relations, equivalence-relation axioms, translate round-trip)",
@@ -92,7 +92,7 @@ CHECKS.update({
 CHECKS.update({
  "C17": dict(engine="E-engine-harness", category="exploration", design_ref="2/C17",
    technique="differential property-based testing under a virtual clock: the engine's entry selection is compared, inside the wrapped call with the clock frozen, with a reference choice computed from the statement's law; an end-to-end call-log invariant relates every engine mutation to the last event notification of that object; a bounded-step no-starvation scenario",
-   text="Ageing, priorities and clock advances are generated; every single sync step's pick must be None iff nothing is eligible and otherwise minimal in (priority, latest change) among the eligible entries; every provider mutation must come at least the ageing interval after the object's last event notification unless its priority is negative; after an event-intake step every entry whose path changed has the rank prioritize() gives to its new path (prioritize by leaf name or by top-level folder); with one file failing for ever, k healthy files must be propagated within 20k+50 sync steps.",
+   text="Ageing, priorities and clock advances are generated; every single sync step's pick must be None iff nothing is eligible and otherwise minimal in (priority, latest change) among the eligible entries; every provider mutation must come at least the ageing interval after the object's last event notification unless its priority is negative; a file ranked negative must be through before the sync loop ever goes idle (part 'urgent'); after an event-intake step every entry whose path changed has the rank prioritize() gives to its new path (prioritize by leaf name or by top-level folder); with one file failing for ever, k healthy files must be propagated within 20k+50 sync steps.",
    note=E_NOTE + " KF-37/38 (early propagation via set_aged / via the other side's flag) and KF-39 (livelock with prioritize and rmtree) are open findings, fenced off and replayed."),
 })
 CHECKS.update({
@@ -110,7 +110,7 @@ CHECKS.update({
 CHECKS.update({
  "C15": dict(engine="E-engine-harness", category="exploration", design_ref="2/C15",
    technique="runtime monitor driven by property-based generation: every write to the sync state (SyncState.updated) must come from a thread owning the state lock, bucketed by the public entry point; driven by generated sequential histories incl. application-thread API calls, and by sampled real-thread executions (cs.start) whose result is compared with the reference tree and the index-integrity predicate",
-   text="The lock clause is decided deterministically: any state write outside the lock is reported with its call site, whichever thread makes it, over generated histories that exercise the application-facing APIs (requests, un-requests, listings, walks). The 'equivalent to a sequential interleaving' clause is sampled with real threads and varying switch intervals: after quiet + stop the trees must equal the expected tree and the indexes must be intact.",
+   text="The lock clause is decided deterministically: any state write outside the lock is reported with its call site, whichever thread makes it, over generated histories that exercise the application-facing APIs (requests, un-requests, listings, walks). The 'equivalent to a sequential interleaving' clause is sampled with real threads and varying switch intervals: part 'queue' calls CloudSync.walk() at a harness-owned instant in the middle of an event manager's queue drain (every queued event must be applied); after quiet + stop the trees must equal the expected tree and the indexes must be intact.",
    note=E_NOTE + " Real OS interleavings are sampled, not enumerated; a wall-clock wait that runs out is inconclusive, never a violation."),
 })
 NOT_YET = {}
